@@ -145,6 +145,7 @@ macro_rules! impl_bit {
             Framebuffer<C, $raw_type, BO, WIDTH, HEIGHT, N>
         where
             C: PixelColor<Raw = $raw_type>,
+            BO: DataOrder,
         {
             /// Sets the color of a pixel.
             ///
@@ -156,7 +157,11 @@ macro_rules! impl_bit {
                         let bits_per_row = WIDTH * C::Raw::BITS_PER_PIXEL;
                         let bytes_per_row = (bits_per_row + 7) / 8;
                         let byte_index = bytes_per_row * y + (x / pixels_per_bit);
-                        let bit_index = 8 - (x % pixels_per_bit + 1) * C::Raw::BITS_PER_PIXEL;
+                        let bit_index = if BO::IS_ALTERNATE_ORDER {
+                            (x % pixels_per_bit) * C::Raw::BITS_PER_PIXEL
+                        } else {
+                            8 - (x % pixels_per_bit + 1) * C::Raw::BITS_PER_PIXEL
+                        };
 
                         let mask = !((2u8.pow(C::Raw::BITS_PER_PIXEL as u32) - 1) << bit_index);
                         let bits = c.into().into_inner() << bit_index;
@@ -171,6 +176,7 @@ macro_rules! impl_bit {
             for Framebuffer<C, $raw_type, BO, WIDTH, HEIGHT, N>
         where
             C: PixelColor<Raw = $raw_type> + Into<$raw_type>,
+            BO: DataOrder,
         {
             type Color = C;
             type Error = Infallible;
